@@ -62,6 +62,30 @@ def gen1(data: bytes):
         m = S.gen_model(tp, cls, nmax=12, nmin=2, p_role=120)
         return {"fam": 1, "src": "reverse", "a": S.shuffled_recipe(tp, m),
                 "b": S.shuffled_recipe(tp, m.reverse()), "kind": None}
+    if tp.chance(60):
+        # "component soup": isolated atoms, diatomics and triatomics over few
+        # elements; b differs from a in one element
+        cls = tp.pick(["MG", "CRG", "SMG", "SCRG"])
+        m = Model(cls)
+        els = tp.shuffle([1, 17, 8, 6, 9, 7])[:2 + tp.below(3)]
+        nid = 0
+        for _ in range(1 + tp.below(5)):
+            size = 1 + tp.below(3)
+            ids = list(range(nid, nid + size))
+            nid += size
+            for a in ids:
+                m.add_atom(a, tp.pick(els))
+            for x, y in zip(ids, ids[1:]):
+                m.add_bond(x, y)
+        m2 = m.copy()
+        a = tp.pick(list(m2.atoms))
+        z = m2.atoms[a]["atom_type"]
+        m2.atoms[a]["atom_type"] = tp.pick([e for e in [1, 17, 8, 6, 9, 7]
+                                            if e != z])
+        rb, _ = S.variant_from(m2, list(S.renaming(tp, m2.atoms).items()),
+                               tp.below(1 << 30))
+        return {"fam": 1, "src": "soup", "a": S.shuffled_recipe(tp, m),
+                "b": rb, "kind": "element"}
     case = c02.gen_pair(tp, sources=(4, 6, 0, 4, 0))
     case["fam"] = 1
     return case
